@@ -4,7 +4,7 @@ import Driver.Mem
 /-
   lst <cpu> <token>...      the listing model on a statement sequence
      tokens: the directive tokens of `dir` (org:…, db:…, lab:… …),
-             ins:<line hex>:<emit,emit,…>    emit = s<n hex> (skip) | d<hh> (data byte) | c<hh> (code byte carrying the
+             ins:<line hex>:<emit,emit,…>    (inq: = inside an include file: not listed)   emit = s<n hex> (skip) | d<hh> (data byte) | c<hh> (code byte carrying the
                                              source line) | n<hh> (code byte marked DL_NO_CG)
              rep:<line hex>:<count hex> … endr
   -> st=0 low= high= ulow= uhigh= lines=<addr>/<len>/<word,word>/<cycles>/<hex of text or ->;…
@@ -26,7 +26,11 @@ def parseSimple (tok : String) : Option Simple :=
   match tok.splitOn ":" with
   | ["ins", line, es] =>
     match parseHex line, (if es == "-" then some [] else (es.splitOn ",").mapM parseEmit) with
-    | some l, some es => some (.instr (BitVec.ofNat 32 l) es)
+    | some l, some es => some (.instr (BitVec.ofNat 32 l) true es)
+    | _, _ => none
+  | ["inq", line, es] =>
+    match parseHex line, (if es == "-" then some [] else (es.splitOn ",").mapM parseEmit) with
+    | some l, some es => some (.instr (BitVec.ofNat 32 l) false es)
     | _, _ => none
   | _ => (parseDirective tok).map .dir
 
@@ -36,11 +40,16 @@ def parseStmtsF : Nat → List String → Option (List Stmt)
   | 0, _ => none
   | fuel + 1, tok :: rest =>
     match tok.splitOn ":" with
-    | ["rep", line, count] =>
+    | [rp, line, count] =>
+     if rp ≠ "rep" ∧ rp ≠ "req" then
+      match parseSimple tok, parseStmtsF fuel rest with
+      | some s, some more => some (.simple s :: more)
+      | _, _ => none
+     else
       let body := rest.takeWhile (· ≠ "endr")
       let after := (rest.dropWhile (· ≠ "endr")).drop 1
       match parseHex line, parseHex count, body.mapM parseSimple, parseStmtsF fuel after with
-      | some l, some c, some b, some more => some (.rep (BitVec.ofNat 32 l) c b :: more)
+      | some l, some c, some b, some more => some (.rep (BitVec.ofNat 32 l) (rp == "rep") c b :: more)
       | _, _, _, _ => none
     | _ =>
       match parseSimple tok, parseStmtsF fuel rest with
